@@ -93,6 +93,8 @@ pub enum Op {
     Restart { inst: usize },
     /// Explicit RRDP session reset.
     RrdpSessionReset { inst: usize },
+    /// The publication server operator removes the CA's publisher.
+    RemovePublisher { inst: usize, ca: String },
     /// Restart with another RRDP retention configuration.
     RestartRrdp {
         inst: usize, min_nr: usize, max_nr: usize, min_seconds: u32,
@@ -124,6 +126,7 @@ impl Op {
             Op::Pump => "pump",
             Op::Restart { .. } => "restart",
             Op::RrdpSessionReset { .. } => "rrdp_session_reset",
+            Op::RemovePublisher { .. } => "remove_publisher",
             Op::RestartRrdp { .. } => "restart_rrdp",
         }
     }
@@ -157,6 +160,8 @@ pub struct GenCfg {
     pub w_clock: u64,
     /// Weight of RRDP session resets and retention changes (C11).
     pub w_rrdp: u64,
+    /// Weight of publisher removal at the server (C19).
+    pub w_status: u64,
     pub pump_pct: u64,
 }
 
@@ -181,6 +186,7 @@ impl Default for GenCfg {
             w_maintenance: 8,
             w_clock: 8,
             w_rrdp: 0,
+            w_status: 0,
             pump_pct: 55,
         }
     }
@@ -330,8 +336,14 @@ pub fn generate(rng: &mut Rng, ctx: &GenCtx) -> Op {
 
     let total = cfg.w_entitlement + cfg.w_config + cfg.w_removal
         + cfg.w_keyroll + cfg.w_maintenance + cfg.w_clock + cfg.w_rrdp
-        + 10;
+        + cfg.w_status + 10;
     let mut pick = rng.below(total);
+
+    if pick < cfg.w_status {
+        let ca = *rng.pick(&user_cas);
+        return Op::RemovePublisher { inst: ca.inst, ca: ca.name.clone() }
+    }
+    pick -= cfg.w_status;
 
     if pick < cfg.w_rrdp {
         return if rng.chance(1, 2) || !ctx.disk[0] {
